@@ -1,102 +1,16 @@
 -------------------------------- MODULE NGlob --------------------------------
 (***************************************************************************)
-(* C17: named glob matching is consistent with the file system and with    *)
-(* itself.                                                                 *)
-(*                                                                         *)
-(* The specification gives the meaning of a named glob pattern directly on *)
-(* path components (no regular expressions, no string surgery):            *)
-(*                                                                         *)
-(*   pattern   = sequence of components, optionally closed by a separator  *)
-(*   component = the recursive wildcard `**`, or a sequence of tokens      *)
-(*   token     = literal character | `*` | `?` | `[...]` | `${*name}`      *)
-(*                                                                         *)
-(* A token sequence is matched against ONE path component (components are  *)
-(* never empty and never contain the separator); `**` stands for any       *)
-(* number of components, including none; a named wildcard stands for what  *)
-(* its substitution (default `*`) matches and every occurrence of the same *)
-(* name stands for the same string.  A directory is a path like any other; *)
-(* a pattern that is closed by a separator, or whose `**` is matched by    *)
-(* nothing at the very end, only accepts directories.  Hidden entries are  *)
-(* ordinary entries.  This is the standard recursive glob (Python's        *)
-(* glob(recursive=True, include_hidden=True)) extended with names.         *)
-(*                                                                         *)
-(* Mode "vectors": TLC evaluates Accept for every pattern of the input     *)
-(* file on a universe of paths and writes the accepted sets; checks/c17.py *)
-(* replays them into the real NamedGlob on real directory trees.           *)
-(* Mode "model" (NGlobModel.cfg): the incremental maintenance of a match   *)
-(* set (extend/reduce) is model checked against a fresh scan.              *)
+(* C17, mode "vectors": TLC evaluates NGlobSem!Accept for every pattern of *)
+(* the input file on a universe of paths (each both as a file and as a     *)
+(* directory) and writes the accepted sets; checks/c17.py replays them     *)
+(* into the real NamedGlob on real directory trees.                        *)
+(* Line 1 of the input: [universe |-> <<path, ...>>], a path being a       *)
+(* sequence of component strings.  Every other line is a pattern:          *)
+(*   [id, comps |-> <<[d |-> TRUE] | [d |-> FALSE, toks |-> <<tok..>>]>>,   *)
+(*    subs |-> <<<<name, <<tok..>>>>, ..>>, tslash |-> BOOLEAN]              *)
 (***************************************************************************)
-EXTENDS Naturals, Sequences, FiniteSets, TLC, Json, IOUtils
+EXTENDS NGlobSem, Json, IOUtils
 
-Chr(s, i) == SubSeq(s, i, i)
-Rest(s, k) == SubSeq(s, k + 1, Len(s))
-NoEnv == [n \in {} |-> ""]
-InCls(c, cs) == \E i \in 1..Len(cs) : Chr(cs, i) = c
-Star == [t |-> "star"]
-
-\* the substitution of a named wildcard: a token sequence without names; default `*`
-SubOf(subs, n) ==
-  IF \E i \in DOMAIN subs : subs[i][1] = n
-  THEN subs[CHOOSE i \in DOMAIN subs : subs[i][1] = n][2]
-  ELSE <<Star>>
-
-(* Tokens against one component.  The result is the set of bindings of names *)
-(* (functions name -> string) under which the component is matched.          *)
-RECURSIVE MT(_, _, _, _)
-MT(toks, s, env, subs) ==
-  IF toks = <<>> THEN (IF Len(s) = 0 THEN {env} ELSE {})
-  ELSE LET h == Head(toks)
-           tl == Tail(toks)
-       IN CASE h.t = "lit" ->
-                 IF Len(s) >= 1 /\ Chr(s, 1) = h.c THEN MT(tl, Rest(s, 1), env, subs) ELSE {}
-            [] h.t = "q" ->
-                 IF Len(s) >= 1 THEN MT(tl, Rest(s, 1), env, subs) ELSE {}
-            [] h.t = "cls" ->
-                 IF Len(s) >= 1 /\ (InCls(Chr(s, 1), h.cs) # h.neg) THEN MT(tl, Rest(s, 1), env, subs) ELSE {}
-            [] h.t = "star" ->
-                 UNION {MT(tl, Rest(s, k), env, subs) : k \in 0..Len(s)}
-            [] h.t = "name" ->
-                 IF h.n \in DOMAIN env
-                 THEN LET v == env[h.n]
-                      IN IF Len(s) >= Len(v) /\ SubSeq(s, 1, Len(v)) = v
-                         THEN MT(tl, Rest(s, Len(v)), env, subs) ELSE {}
-                 ELSE UNION {IF MT(SubOf(subs, h.n), SubSeq(s, 1, k), NoEnv, <<>>) # {}
-                             THEN MT(tl, Rest(s, k), env @@ (h.n :> SubSeq(s, 1, k)), subs)
-                             ELSE {} : k \in 0..Len(s)}
-
-(* Components against a path (a non-empty sequence of components) of the given kind *)
-RECURSIVE MC(_, _, _, _, _)
-MC(comps, pc, kind, env, subs) ==
-  IF comps = <<>> THEN pc = <<>>
-  ELSE LET h == Head(comps)
-           tl == Tail(comps)
-       IN IF h.d
-          THEN \/ \E k \in 1..Len(pc) : MC(tl, SubSeq(pc, k + 1, Len(pc)), kind, env, subs)
-               \* `**` stands for nothing: fine in the middle of a path; at its end it denotes
-               \* the directory reached so far
-               \/ /\ pc # <<>> \/ kind = "dir"
-                  /\ MC(tl, pc, kind, env, subs)
-          ELSE /\ pc # <<>>
-               /\ \E e \in MT(h.toks, Head(pc), env, subs) : MC(tl, Tail(pc), kind, e, subs)
-
-Accept(P, pc, kind) ==
-  /\ Len(pc) >= 1
-  /\ P.tslash => kind = "dir"
-  /\ MC(P.comps, pc, kind, NoEnv, P.subs)
-
-\* the bindings of the names of P under which the path is accepted (for repeated names)
-RECURSIVE MCE(_, _, _, _, _)
-MCE(comps, pc, kind, env, subs) ==
-  IF comps = <<>> THEN (IF pc = <<>> THEN {env} ELSE {})
-  ELSE LET h == Head(comps)
-           tl == Tail(comps)
-       IN IF h.d
-          THEN UNION {MCE(tl, SubSeq(pc, k + 1, Len(pc)), kind, env, subs) : k \in 1..Len(pc)}
-               \cup (IF pc # <<>> \/ kind = "dir" THEN MCE(tl, pc, kind, env, subs) ELSE {})
-          ELSE IF pc = <<>> THEN {}
-               ELSE UNION {MCE(tl, Tail(pc), kind, e, subs) : e \in MT(h.toks, Head(pc), env, subs)}
-
-(* ------------------------------ mode "vectors" ------------------------------ *)
 Lines == ndJsonDeserialize(IOEnv.TRACE_FILE)
 N == Len(Lines)
 U == Lines[1].universe            \* sequence of paths, each a sequence of component strings
@@ -105,13 +19,32 @@ U == Lines[1].universe            \* sequence of paths, each a sequence of compo
 AcceptSet(P) == {2 * j - 1 : j \in {j \in DOMAIN U : Accept(P, U[j], "file")}}
                 \cup {2 * j : j \in {j \in DOMAIN U : Accept(P, U[j], "dir")}}
 
+\* the path string of universe entry j as a file / as a directory
+RECURSIVE JoinC(_)
+JoinC(pc) == IF Len(pc) = 1 THEN pc[1] ELSE pc[1] \o "/" \o JoinC(Tail(pc))
+PathStr(j, kind) == JoinC(U[j]) \o (IF kind = "dir" THEN "/" ELSE "")
+Idx(j, kind) == IF kind = "file" THEN 2 * j - 1 ELSE 2 * j
+Entries == {<<j, k>> : j \in DOMAIN U, k \in {"file", "dir"}}
+
+\* the matcher as built, and the bindings it admits
+MatcherSet(P) == {Idx(x[1], x[2]) : x \in {x \in Entries : AM(P, PathStr(x[1], x[2])) # {}}}
+EnvPairs(e) == {<<n, e[n]>> : n \in DOMAIN e}
+BindSet(P) ==
+  IF ~P.bind THEN {}
+  ELSE {<<Idx(x[1], x[2]), {EnvPairs(e) : e \in AM(P, PathStr(x[1], x[2]))}>> :
+          x \in {x \in Entries : AM(P, PathStr(x[1], x[2])) # {}}}
+\* named deviations, for the classification of the differences between meaning and matcher
+EmptyTailSet(P) == {2 * j : j \in {j \in DOMAIN U : EmptyTailDir(P, U[j])}}
+
 VARIABLES l, out
 vars == <<l, out>>
 Init == l = 1 /\ out = <<>>
 Next ==
   /\ l < N
   /\ l' = l + 1
-  /\ out' = Append(out, [id |-> Lines[l + 1].id, acc |-> AcceptSet(Lines[l + 1])])
+  /\ out' = Append(out, [id |-> Lines[l + 1].id, acc |-> AcceptSet(Lines[l + 1]), pre |-> AcceptSet(Lines[l + 1].anon),
+                            am |-> MatcherSet(Lines[l + 1]), dirok |-> DirRecordable(Lines[l + 1]),
+                            etail |-> EmptyTailSet(Lines[l + 1]), bind |-> BindSet(Lines[l + 1])])
   /\ (l' = N) => JsonSerialize(IOEnv.VERDICT_FILE, [vectors |-> out', n |-> N - 1])
 Spec == Init /\ [][Next]_vars
 Consumed == TLCGet("stats").diameter = N
